@@ -302,6 +302,7 @@ var plans = map[string]Plan{
 		},
 		Units: []Unit{
 			{Name: "c05", Run: "^TestC05$", Rapid: true, Shards: [2]int{14, 16}, Checks: [2]int{3000, 15000}, Lab: &LabSpec{Kind: "value", Programs: [2]int{16, 120}}},
+			{Name: "c05-big", Run: "^TestC05Big$", Shards: [2]int{1, 2}, Lab: &LabSpec{Kind: "value", Programs: [2]int{16, 120}}},
 		},
 	},
 	"C14": {
